@@ -131,7 +131,7 @@ func TestC12Sized(t *testing.T) {
 	seeds := mustSeeds(t)
 	byEnc := map[string][]seedEncoding{"protobuf": seedsOf(seeds, "protobuf"), "json": seedsOf(seeds, "json")}
 	perCase := 600
-	meta := vrun.Meta{Property: "C12", Workload: "TestC12Sized", Total: env.Pick(200, 2000),
+	meta := vrun.Meta{Property: "C12", Workload: "TestC12Sized", Total: env.Pick(200, 1000),
 		Rule:        fmt.Sprintf("case i works on one encoding (even i protobuf, odd i JSON) and pushes %d (frame, MaxMessageSize) pairs through encoding.Transport.Read over an in-memory byte transport. Frames: valid encodings of every message type, valid encodings padded to an exact size, random mutants of them, raw random bytes; sizes are drawn around the limit (limit-1, limit, limit+1), around 1000/1024 and their multiples, and up to 1 MiB. Limits: 0 (no limit), 1, len-1, len, len+1, 1000, 1024 and random values. Oracle: len > limit > 0 => error with errors.Is(err, ErrMessageTooLarge) and no message; otherwise never that error, and exactly one of message/error; accepted frames also go through the round-trip oracle. Non-trivial: the case saw all of too-large, within-limit message and within-limit error outcomes; distinct: different (frame,limit) multiset.", perCase),
 		Assumptions: append([]string{"MaxMessageSize 0 is read as 'no limit' (encoding/main.go:147 and the only value iscp.Connect ever configures): no frame may be rejected as too large then", "the limit counts the bytes of the frame handed over by the byte transport (what encoding.Transport.Read compares)"}, decodeAssumptions...)}
 	vrun.Loop(t, meta, 0, func(c *vrun.Case) vrun.Result {
